@@ -1,5 +1,5 @@
 """C13 — every reported observable equals its definition on the current state (plumbing + definition shape)."""
-from ..rules import canon, dark, jump, observables, once
+from ..rules import step, canon, dark, jump, observables, once
 
 META = {
     "title": "Every reported observable equals its definition on the current state",
@@ -29,3 +29,4 @@ def check(ctx):
     ctx.floor("ROLE-callback", 9)
     ctx.floor("OBSDEF", 9)
     canon.gauge_moves(ctx)
+    step.sv_initial_hamiltonian(ctx)
